@@ -640,7 +640,7 @@ def interleaved_replay(case, seed):
 # ------------------------------------------------- chunk representations and object transport
 
 FORMS = ("bigendian", "strided", "negstride", "reused_buffer", "deepcopy_each", "pickle_each", "pickle_at",
-         "deepcopy_at", "refused_at")
+         "deepcopy_at", "refused_at", "fpstrict", "spelled_int", "spelled_npbool")
 
 
 def _chunk_form(form, x, buf):
@@ -664,9 +664,27 @@ def _transport_run(ctx, chunks, form, at):
     import copy
     import pickle
 
-    comp = computers.clone(ctx.comp0)
+    if form.startswith("spelled_"):
+        # the same configuration with its flags given as 0/1 or numpy bools
+        comp = cfg.make_computer(dict(ctx.c, spelling=form[8:]))
+        computers.poison(comp)
+    else:
+        comp = computers.clone(ctx.comp0)
     buf = np.zeros(max(chunks + [1]), dtype=ctx.dtype)
     held, pos = [], 0
+    if form == "fpstrict":
+        # every call made with numpy's floating-point error state set to 'raise' by the caller
+        with np.errstate(all="raise"):
+            for k in chunks:
+                r = computers.call(comp.compute_chunk, ctx.x[pos:pos + k])
+                pos += k
+                if r[0] != "ok":
+                    return r, None
+                held.append(r[1])
+            r = computers.call(comp.finalize)
+        if r[0] != "ok":
+            return r, None
+        return ("ok",), (np.concatenate(held + [r[1]]) if held else r[1])
     for j, k in enumerate(chunks + [None]):
         if form in ("deepcopy_each", "pickle_each") or (form in ("pickle_at", "deepcopy_at") and j == at):
             r = computers.call((lambda o: pickle.loads(pickle.dumps(o))) if form.startswith("pickle")
@@ -699,7 +717,8 @@ def _transport_one(ctx, n, chunks, form, at):
     ref = ctx.ref[n]
     case = ctx.case(chunks=chunks, form=form, at=at)
     st, got = _transport_run(ctx, chunks, form, at)
-    route = "object" if "copy" in form or "pickle" in form else "refusal" if form == "refused_at" else "chunk"
+    route = ("object" if "copy" in form or "pickle" in form else "refusal" if form == "refused_at" else
+             "environment" if form == "fpstrict" else "spelling" if form.startswith("spelled_") else "chunk")
     if st[0] == "skip":
         return None
     if st[0] != "ok":
@@ -899,7 +918,8 @@ def subchecks(tier, seed):
             "order / as every-other-sample view / negative stride / in the caller's single buffer that is "
             "overwritten after every call; computer deep-copied or pickled and restored before every call; "
             "before exactly one call, every position incl. finalize; a refused integer chunk (error caught by the "
-            "caller) before exactly one call, every position} vs compute_full",
+            "caller) before exactly one call, every position; every call under np.errstate(all='raise'); constructor "
+            "flags spelled 0/1 / numpy.bool_} vs compute_full",
             axes=dict(forms=list(FORMS), Nt=ntr), replay=lambda case: transport_replay(case, seed), chunk=1,
             kind="explore"),
         core.SubCheck(
